@@ -621,8 +621,26 @@ def pre_build(ctx):
     py2lean.pre_build(ctx, ("bottleneck",))
 
 
+
+DEFAULT_FILTER_STMT = 'persim.bottleneck(np.array([[0.0, 1.0], [0.0, np.inf]]), np.array([[0.0, 2.0]]))'
+
+
+def default_filter_probe(ctx):
+    """[T] the clause `dropped / handled WITH A WARNING` as the caller experiences it: in a fresh interpreter under Python's
+    own warning filters (our other streams record with simplefilter("always"), which would hide a filter that `import
+    persim` installs), the call must deliver a warning"""
+    res = common.warnings_under_default_filters(DEFAULT_FILTER_STMT)
+    if res is None:
+        ctx.count("default_filter_probe:not_run")
+        return
+    ctx.test("warning_reaches_caller_under_default_filters", res[0] >= 1)
+    if res[0] < 1:
+        ctx.violation("no warning reaches the caller under the interpreter's default warning filters for: %s" % DEFAULT_FILTER_STMT,
+                      {"op": "default_filter_probe", "stmt": DEFAULT_FILTER_STMT}, found_input=True)
+
 def run(ctx):
     py2lean.report_broken(ctx, PROP_FILES)
+    default_filter_probe(ctx)
     r = ctx.rng
     ctx.extra["core_theorems"] = CORE_THEOREMS
     cases = [norm_case(c) for c in CORPUS]
@@ -955,6 +973,10 @@ def hash_seeds(ctx, cases):
 
 
 def replay(ctx, rep):
+    if rep["case"].get("op") == "default_filter_probe":
+        res = common.warnings_under_default_filters(rep["case"]["stmt"])
+        print("warnings delivered under default filters:", res)
+        return res is None or res[0] >= 1
     c = rep["case"]
     if "dgm1" not in c:
         c = c.get("case", {})
